@@ -16,7 +16,7 @@ import numpy as np
 
 from mc import rng
 from mc.explorer import System, Violation, jsonable
-from checks.drivers import DRIVERS
+from checks.drivers import DRIVERS, drift_prefixes
 
 PROPERTY = "C02"
 
@@ -247,33 +247,6 @@ PLAN = {
     "NNDVI": (4, 5, 1),
 }
 COST = {"KdqTreeBatch": 30, "HDDDM": 10, "CDBD": 8, "NNDVI": 8, "KdqTreeStreaming": 10}
-
-
-def drift_prefixes(name, p, maxlen=5, limit=3):
-    """Shortest update sequences (driver alphabet) after which the real detector reports drift:
-    scripted starts from non-initial states, so that second and third epochs lie deep inside the bound."""
-    d = DRIVERS[name]
-    found = []
-    frontier = [((), d.make(p))]
-    for _ in range(maxlen):
-        nxt = []
-        for pre, det in frontier:
-            for sym in d.alphabet(p):
-                x = copy.deepcopy(det)
-                try:
-                    d.feed(x, sym, p)
-                except Exception:
-                    continue
-                if x.drift_state == "drift":
-                    found.append(list(pre) + [sym])
-                    if len(found) >= limit:
-                        return found
-                else:
-                    nxt.append((pre + (sym,), x))
-        if found:
-            return found
-        frontier = nxt[:4000]
-    return found
 
 
 def tasks(tier, seed):
